@@ -39,7 +39,7 @@ FILES = {
     "geometry_tools/coxeter.py": ["N8"],
 }
 PIDS = ["C01", "C03", "C04", "C05", "C06", "C08", "C09", "C10", "C11", "C12",
-        "C13", "C14", "C15", "C16", "C18", "C19", "C20"]
+        "C13", "C14", "C15", "C16", "C17", "C18", "C19", "C20"]
 
 CMP = {ast.Lt: ast.LtE, ast.LtE: ast.Lt, ast.Gt: ast.GtE, ast.GtE: ast.Gt,
        ast.Eq: ast.NotEq, ast.NotEq: ast.Eq, ast.Is: ast.IsNot,
